@@ -1174,6 +1174,114 @@ func (st *plState) freeSites(pools []*plPool) ([]plFree, error) {
 	return out, nil
 }
 
+// putUses: every call of a plain put function (`putCheckedEntry(ce)`, `putJSONEncoder(final)`, `putSliceEncoder(arr)`) with
+// the number of reads of its argument that follow the call on the way to the end of the enclosing function (the rest of the
+// block and of every enclosing block; a call inside a deferred function literal or `defer put(x)` itself has none).  Once an
+// object is back in its pool the next Get may hand it to somebody else: a later read sees that somebody's data.
+func (st *plState) putUses(pools []*plPool) ([]plFree, error) {
+	var out []plFree
+	for _, pl := range pools {
+		p := pl.pkg
+		names := map[string]bool{}
+		for _, fd := range pl.putDecls {
+			inline := false
+			for _, g := range pl.getFns {
+				if g == p.fnName(fd) {
+					inline = true
+				}
+			}
+			if fd.Recv == nil && !inline {
+				names[fd.Name.Name] = true
+			}
+		}
+		if len(names) == 0 {
+			continue
+		}
+		for _, fd := range p.funcs {
+			if fd.Body == nil {
+				continue
+			}
+			var walk func(list []ast.Stmt, deferred bool, outer []ast.Stmt) error
+			record := func(ce *ast.CallExpr, deferred bool, rest []ast.Stmt) error {
+				id, ok := ce.Fun.(*ast.Ident)
+				if !ok || !names[id.Name] {
+					return nil
+				}
+				if len(ce.Args) != 1 {
+					return fmt.Errorf("%s: %s called with %d arguments in %s", pl.id, id.Name, len(ce.Args), p.fnName(fd))
+				}
+				arg, ok := ce.Args[0].(*ast.Ident)
+				if !ok {
+					return fmt.Errorf("%s: %s is given a non-identifier in %s", pl.id, id.Name, p.fnName(fd))
+				}
+				uses := 0
+				for _, s := range rest {
+					uses += countReads(p, s, arg.Name)
+				}
+				out = append(out, plFree{fn: p.fnName(fd), recv: p.src(ce), deferred: deferred, usesAfter: uses})
+				return nil
+			}
+			walk = func(list []ast.Stmt, deferred bool, outer []ast.Stmt) error {
+				for i, s := range list {
+					rest := append(append([]ast.Stmt{}, list[i+1:]...), outer...)
+					var err error
+					switch x := s.(type) {
+					case *ast.ExprStmt:
+						if ce, ok := x.X.(*ast.CallExpr); ok {
+							err = record(ce, deferred, rest)
+						}
+					case *ast.DeferStmt:
+						if fl, ok := x.Call.Fun.(*ast.FuncLit); ok {
+							err = walk(fl.Body.List, true, nil)
+						} else {
+							err = record(x.Call, true, nil)
+						}
+					case *ast.BlockStmt:
+						err = walk(x.List, deferred, rest)
+					case *ast.IfStmt:
+						err = walk(x.Body.List, deferred, rest)
+						if err == nil && x.Else != nil {
+							err = walk([]ast.Stmt{x.Else}, deferred, rest)
+						}
+					case *ast.ForStmt:
+						err = walk(x.Body.List, deferred, rest)
+					case *ast.RangeStmt:
+						err = walk(x.Body.List, deferred, rest)
+					case *ast.SwitchStmt:
+						for _, c := range x.Body.List {
+							if err == nil {
+								err = walk(c.(*ast.CaseClause).Body, deferred, rest)
+							}
+						}
+					default:
+						// a put call buried in any other statement shape is unreadable
+						bad := false
+						ast.Inspect(s, func(n ast.Node) bool {
+							if ce, ok := n.(*ast.CallExpr); ok {
+								if id, ok := ce.Fun.(*ast.Ident); ok && names[id.Name] {
+									bad = true
+								}
+							}
+							return true
+						})
+						if bad {
+							err = fmt.Errorf("%s: a put function is called inside `%s` in %s", pl.id, p.src(s), p.fnName(fd))
+						}
+					}
+					if err != nil {
+						return err
+					}
+				}
+				return nil
+			}
+			if err := walk(fd.Body.List, false, nil); err != nil {
+				return nil, err
+			}
+		}
+	}
+	return out, nil
+}
+
 // countReads counts occurrences of the expression text `recv` in s that are not the whole left-hand side of an assignment.
 func countReads(p *plPkg, s ast.Stmt, recv string) int {
 	n := 0
@@ -1312,6 +1420,20 @@ func genPools() (string, int, error) {
 			sep = ""
 		}
 		fmt.Fprintf(&sb, "  ⟨%s, %s, %s, %v, %d⟩%s\n", leanStr(fs.fn), leanStr(fs.recv+"."+fs.method), leanStr(fs.origin), fs.deferred, fs.usesAfter, sep)
+		rows++
+	}
+	sb.WriteString("]\n\n")
+	puts, err := st.putUses(pools)
+	if err != nil {
+		return "", 0, err
+	}
+	sb.WriteString("/-- every call of a plain put function, with the reads of its argument that follow it in the caller -/\ndef putUses : List FreeSite := [\n")
+	for i, fs := range puts {
+		sep := ","
+		if i == len(puts)-1 {
+			sep = ""
+		}
+		fmt.Fprintf(&sb, "  ⟨%s, %s, %s, %v, %d⟩%s\n", leanStr(fs.fn), leanStr(fs.recv), leanStr(""), fs.deferred, fs.usesAfter, sep)
 		rows++
 	}
 	sb.WriteString("]\n\n")
